@@ -55,6 +55,8 @@ ASSUMPTIONS = [
     "after Server.reopen() the harness removes already-closed remoters with the public removeIx() before servicing "
     "again (servicing a closed remoter raises AttributeError; not this property)",
     "exceptions escaping Server.service()/Client.service() are counted, not judged here (C10/C16)",
+    "an SSLSocket created inside an SSLContext.wrap_socket() call that raises is never handed to hio (CPython drops "
+    "it); it is closed by the ledger as the GC would and counted, not judged",
 ]
 NSHARDS = {"quick": 16, "thorough": 16}
 TIMEOUT_S = {"quick": 240, "thorough": 1500}
@@ -919,6 +921,8 @@ def run_case(case, ctx):
         run.cleanup()
         res = led.finish()
     ctx.count("census_checks")
+    if led.orphans:
+        ctx.count("ssl_wrap_raised_socket_never_returned_obs", led.orphans)
     ctx.count("ledger_entries", res["n_entries"])
     # anything hio created that survived the endpoint's close() and was not already reported above
     for e in res["leaked"]:
